@@ -5,7 +5,7 @@
 //
 // ref_parse() is total.  `documented` tells whether the whole text stays inside the documented syntax; when
 // it is false (dangling escape, empty or out-of-range numeral, construct between the two digits of a hex
-// pair, NUL byte, ...) the result is only a best guess and callers must not compare it with phosg.
+// pair, NUL byte, a hexadecimal float without binary exponent, ...) the result is only a best guess and callers must not compare it with phosg.
 #pragma once
 #include <stdint.h>
 #include <string.h>
@@ -218,7 +218,10 @@ private:
     i = p;
   }
 
-  // decimal floating literal: [+-] digits [. digits] [(e|E) [+-] digits]  (at least one digit in the mantissa)
+  // floating literal: [+-] digits [. digits] [(e|E) [+-] digits]  (at least one digit in the mantissa), or the C99 / C++17
+  // hexadecimal form [+-] 0x hexdigits [. hexdigits] (p|P) [+-] digits (at least one hex digit, binary exponent present).
+  // "% is a float, %% is a double": the bytes are those of the IEEE-754 single / double NEAREST to the value the literal
+  // denotes (ties to even), whatever the number of digits - i.e. the literal is rounded once, to the width asked for.
   void floating() {
     size_t n = t.size();
     i++;
@@ -234,38 +237,65 @@ private:
       p++;
     }
     size_t m0 = p, mant_digits = 0;
-    while (p < n && is_digit(t[p])) p++, mant_digits++;
-    if (p < n && t[p] == '.') {
-      p++;
+    bool hexfloat = (m0 + 1 < n && t[m0] == '0' && (t[m0 + 1] == 'x' || t[m0 + 1] == 'X'));
+    if (hexfloat) {
+      p = m0 + 2;
+      while (p < n && hex_value(t[p]) >= 0) p++, mant_digits++;
+      if (p < n && t[p] == '.') {
+        p++;
+        while (p < n && hex_value(t[p]) >= 0) p++, mant_digits++;
+      }
+      bool has_exp = false;
+      if (mant_digits > 0 && p < n && (t[p] == 'p' || t[p] == 'P')) {
+        size_t q = p + 1;
+        if (q < n && (t[q] == '-' || t[q] == '+')) q++;
+        if (q < n && is_digit(t[q])) {
+          while (q < n && is_digit(t[q])) q++;
+          p = q;
+          has_exp = true;
+        }
+      }
+      if (!has_exp) {
+        // "0x" without digits, or without a binary exponent: where such a literal ends is not settled
+        undocumented("hexadecimal float without digits or without a binary exponent");
+        emit_int(0, dbl ? 8 : 4);
+        i = p;
+        return;
+      }
+    } else {
       while (p < n && is_digit(t[p])) p++, mant_digits++;
-    }
-    if (mant_digits == 0) {
-      undocumented("% without a decimal number");
-      emit_int(0, dbl ? 8 : 4);
-      return;
-    }
-    if (p < n && (t[p] == 'e' || t[p] == 'E')) {
-      size_t q = p + 1;
-      if (q < n && (t[q] == '-' || t[q] == '+')) q++;
-      if (q < n && is_digit(t[q])) {
-        while (q < n && is_digit(t[q])) q++;
-        p = q;
+      if (p < n && t[p] == '.') {
+        p++;
+        while (p < n && is_digit(t[p])) p++, mant_digits++;
+      }
+      if (mant_digits == 0) {
+        undocumented("% without a decimal number");
+        emit_int(0, dbl ? 8 : 4);
+        return;
+      }
+      if (p < n && (t[p] == 'e' || t[p] == 'E')) {
+        size_t q = p + 1;
+        if (q < n && (t[q] == '-' || t[q] == '+')) q++;
+        if (q < n && is_digit(t[q])) {
+          while (q < n && is_digit(t[q])) q++;
+          p = q;
+        }
       }
     }
-    if (m0 + 1 < n && t[m0] == '0' && (t[m0 + 1] == 'x' || t[m0 + 1] == 'X')) undocumented("hexadecimal float");
     if (p < n && (is_alnum(t[p]) || t[p] == '.')) undocumented("character glued to a float");
-    std::string lit = t.substr(m0, p - m0);
+    std::string lit = hexfloat ? t.substr(m0 + 2, p - m0 - 2) : t.substr(m0, p - m0);
+    std::chars_format fmt = hexfloat ? std::chars_format::hex : std::chars_format::general;
     uint64_t bits = 0;
     unsigned bytes = dbl ? 8 : 4;
     if (dbl) {
       double v = 0;
-      auto r = std::from_chars(lit.data(), lit.data() + lit.size(), v);
+      auto r = std::from_chars(lit.data(), lit.data() + lit.size(), v, fmt);
       if (r.ec != std::errc() || r.ptr != lit.data() + lit.size()) undocumented("float outside the representable range");
       if (neg) v = -v;
       memcpy(&bits, &v, 8);
     } else {
       float v = 0;
-      auto r = std::from_chars(lit.data(), lit.data() + lit.size(), v);
+      auto r = std::from_chars(lit.data(), lit.data() + lit.size(), v, fmt);
       if (r.ec != std::errc() || r.ptr != lit.data() + lit.size()) undocumented("float outside the representable range");
       if (neg) v = -v;
       uint32_t b32;
